@@ -67,7 +67,7 @@ def _hilbert_transform_with_padding(y, padding: str = "exp", decay_factor: float
 
     # Padding can introduce a shift in the mean of the imaginary part
     # of the Hilbert transform. Correct for this shift.
-    y = y - y.mean(axis=0)  # type: ignore
+    y = y - 1j * y.imag.mean(axis=0)  # type: ignore
 
     return y
 
